@@ -206,7 +206,10 @@ func checkResource(o map[string]interface{}, prefix string) (ti [2]string, claus
 	}
 
 	want := strings.TrimSuffix(prefix, "/") + "/" + typ + "/" + id
-	if got := linkText(links["self"]); got != want {
+
+	// A resource that has no ID yet (a client building a POST document) has no URL
+	// made of prefix, type and id either: only the presence of the link is required.
+	if got := linkText(links["self"]); id != "" && got != want {
 		return ti, "resource-self-link", fmt.Sprintf("self link is %q, want prefix + type + id = %q", got, want)
 	}
 
